@@ -5,6 +5,9 @@ import ScsiVerif.Model.Xfer
 import ScsiVerif.Model.Guards
 import ScsiVerif.Model.Facade
 import ScsiVerif.Model.Attach
+import ScsiVerif.Model.Sense
+import ScsiVerif.Model.Exec
+import ScsiVerif.Std.Sense
 import ScsiVerif.Gen.Commands
 import ScsiVerif.Gen.Opcodes
 import ScsiVerif.Gen.Tables
@@ -137,6 +140,37 @@ def cmdOp (toks : List String) : Option String :=
       | _ => none)
     let w := Attach.run (List.replicate n {}) evs
     pure ("ok " ++ ";".intercalate (w.map (fun d => d.opcodes ++ "/" ++ (match d.devicetype with | some t => toString t | none => "none") ++ "/" ++ toString d.inquiries)))
+  -- sense <hex> : SCSICheckCondition(sense) and str() of it; `std=` what SPC prescribes
+  | ["sense", b] => do
+    let b ← parseBytes b
+    let std := match Std.senseFields b with
+      | some (k, a, q) => toString k ++ "/" ++ toString a ++ "/" ++ toString q
+      | none => "none"
+    match Sense.mk b with
+    | .error e => pure (showErr e ++ " std=" ++ std)
+    | .ok e =>
+      let t := match Sense.triple e with
+        | some (k, a, q) => toString k ++ "/" ++ toString a ++ "/" ++ toString q
+        | none => "none"
+      match Sense.str e with
+      | .ok s => pure ("ok triple=" ++ t ++ " std=" ++ std ++ " str=" ++ s)
+      | .error x => pure ("ok triple=" ++ t ++ " std=" ++ std ++ " strerr=" ++ x.name)
+  -- iscsiexec <status> <tasksense x..|absent> <prevsense x..|n> <raw 0|1>
+  | ["iscsiexec", stt, ts, ps, raw] => do
+    let stt ← stt.toNat?
+    let ts : Option Conv.Bytes := parseBytes ts
+    let ps : Option Conv.Bytes := parseBytes ps
+    let r := Exec.iscsi stt ts ps (raw == "1")
+    let so : Option Conv.Bytes → String := fun | some b => showBytes b | none => "n"
+    pure ("ok " ++ (match r.out with | .returned => "returned" | .raised e => "raised:" ++ e) ++
+      " sense=" ++ so r.cmdSense ++ " raw=" ++ so r.rawSense ++ " err=" ++ so r.errSense)
+  | ["sgioexec", stt, sn, raw] => do
+    let stt ← stt.toNat?
+    let sn : Option Conv.Bytes := parseBytes sn
+    let r := Exec.sgio stt sn (raw == "1")
+    let so : Option Conv.Bytes → String := fun | some b => showBytes b | none => "n"
+    pure ("ok " ++ (match r.out with | .returned => "returned" | .raised e => "raised:" ++ e) ++
+      " raw=" ++ so r.rawSense ++ " err=" ++ so r.errSense)
   | ["t10op", name] => pure (match Std.lookup Std.t10Opcodes name with | some v => "ok " ++ toString v | none => "none")
   | ["t10sa", name] => pure (match Std.lookup Std.t10ServiceActions name with | some v => "ok " ++ toString v | none => "none")
   | ["samstatus", name] => pure (match Std.lookup Std.samStatus name with | some v => "ok " ++ toString v | none => "none")
